@@ -144,3 +144,291 @@ __CPROVER_loop_invariant(i <= out->encdatalen)
 __CPROVER_decreases(out->encdatalen - i)
 //@ end
 
+//@ function PacketDecodeTag1
+//@ contract
+__CPROVER_requires(TVEC_OK(pkt) && CTX_OK(out))
+__CPROVER_assigns(*out, tmcg_openpgp_mem_alloc, vec_u8__cell)
+__CPROVER_ensures(__CPROVER_return_value == 0 || __CPROVER_return_value == 0xFE || __CPROVER_return_value == 1)
+//@ loop 1
+__CPROVER_assigns(i, vec_u8__cell, __CPROVER_object_upto(out->keyid, 8))
+__CPROVER_loop_invariant(i <= 8)
+__CPROVER_decreases(8 - i)
+//@ loop 2
+__CPROVER_assigns(i, vec_u8__cell, __CPROVER_object_upto(out->rkw, 256))
+__CPROVER_loop_invariant(i <= out->rkwlen && out->rkwlen < 255 && mpis.size >= out->rkwlen + 1)
+__CPROVER_decreases(out->rkwlen - i)
+//@ end
+
+//@ function PacketDecodeTag3
+//@ contract
+__CPROVER_requires(TVEC_OK(pkt) && CTX_OK(out))
+__CPROVER_assigns(*out, tmcg_openpgp_mem_alloc, vec_u8__cell)
+__CPROVER_ensures(__CPROVER_return_value == 0 || __CPROVER_return_value == 0xFE || __CPROVER_return_value == 3)
+//@ loop 1
+__CPROVER_assigns(i, vec_u8__cell, __CPROVER_object_whole(out->encdata))
+__CPROVER_loop_invariant(i <= out->encdatalen)
+__CPROVER_decreases(out->encdatalen - i)
+//@ loop 2
+__CPROVER_assigns(i, vec_u8__cell, __CPROVER_object_upto(out->s2k_salt, 8))
+__CPROVER_loop_invariant(i <= 8)
+__CPROVER_decreases(8 - i)
+//@ loop 3
+__CPROVER_assigns(i, vec_u8__cell, __CPROVER_object_whole(out->encdata))
+__CPROVER_loop_invariant(i <= out->encdatalen)
+__CPROVER_decreases(out->encdatalen - i)
+//@ loop 4
+__CPROVER_assigns(i, vec_u8__cell, __CPROVER_object_upto(out->s2k_salt, 8))
+__CPROVER_loop_invariant(i <= 8)
+__CPROVER_decreases(8 - i)
+//@ loop 5
+__CPROVER_assigns(i, vec_u8__cell, __CPROVER_object_whole(out->encdata))
+__CPROVER_loop_invariant(i <= out->encdatalen)
+__CPROVER_decreases(out->encdatalen - i)
+//@ loop 6
+__CPROVER_assigns(i, vec_u8__cell, __CPROVER_object_upto(out->iv, 32))
+__CPROVER_loop_invariant(i <= ivlen && ivlen <= 32)
+__CPROVER_decreases(ivlen - i)
+//@ loop 7
+__CPROVER_assigns(i, vec_u8__cell, __CPROVER_object_whole(out->encdata))
+__CPROVER_loop_invariant(i <= out->encdatalen)
+__CPROVER_decreases(out->encdatalen - i)
+//@ loop 8
+__CPROVER_assigns(i, vec_u8__cell, __CPROVER_object_upto(out->s2k_salt, 8))
+__CPROVER_loop_invariant(i <= 8)
+__CPROVER_decreases(8 - i)
+//@ loop 9
+__CPROVER_assigns(i, vec_u8__cell, __CPROVER_object_upto(out->iv, 32))
+__CPROVER_loop_invariant(i <= ivlen && ivlen <= 32)
+__CPROVER_decreases(ivlen - i)
+//@ loop 10
+__CPROVER_assigns(i, vec_u8__cell, __CPROVER_object_whole(out->encdata))
+__CPROVER_loop_invariant(i <= out->encdatalen)
+__CPROVER_decreases(out->encdatalen - i)
+//@ loop 11
+__CPROVER_assigns(i, vec_u8__cell, __CPROVER_object_upto(out->s2k_salt, 8))
+__CPROVER_loop_invariant(i <= 8)
+__CPROVER_decreases(8 - i)
+//@ loop 12
+__CPROVER_assigns(i, vec_u8__cell, __CPROVER_object_upto(out->iv, 32))
+__CPROVER_loop_invariant(i <= ivlen && ivlen <= 32)
+__CPROVER_decreases(ivlen - i)
+//@ loop 13
+__CPROVER_assigns(i, vec_u8__cell, __CPROVER_object_whole(out->encdata))
+__CPROVER_loop_invariant(i <= out->encdatalen)
+__CPROVER_decreases(out->encdatalen - i)
+//@ end
+
+//@ function PacketDecodeTag614
+//@ contract
+__CPROVER_requires(TVEC_OK(pkt) && CTX_OK(out))
+__CPROVER_assigns(*out, tmcg_openpgp_mem_alloc, vec_u8__cell)
+__CPROVER_ensures(__CPROVER_return_value == 0 || __CPROVER_return_value == 0xFE || __CPROVER_return_value == 0xFD || __CPROVER_return_value == tag)
+//@ loop 1
+__CPROVER_assigns(i, vec_u8__cell, __CPROVER_object_upto(out->curveoid, 256))
+__CPROVER_loop_invariant(i <= out->curveoidlen)
+__CPROVER_decreases(out->curveoidlen - i)
+//@ loop 2
+__CPROVER_assigns(i, vec_u8__cell, __CPROVER_object_upto(out->curveoid, 256))
+__CPROVER_loop_invariant(i <= out->curveoidlen)
+__CPROVER_decreases(out->curveoidlen - i)
+//@ end
+
+//@ function SubpacketDecode
+//@ contract
+/* C12: one signature subpacket is taken off the front of an area of ANY length and content.  Memory safe; the area
+ * never grows; and a subpacket is reported (non-zero) only if at least two octets were consumed -- the progress that
+ * makes SubpacketParse terminate. */
+__CPROVER_requires(TVEC_OK(in) && CTX_OK(out))
+/* type invariant of a packet context: a non-zero length field owns a heap buffer of that length */
+__CPROVER_requires(out->embeddedsignaturelen <= 2147483645UL && out->attestedcertificationslen <= 2147483645UL)   /* TMCG_OPENPGP_MAX_ALLOC */
+__CPROVER_requires(out->embeddedsignaturelen == 0 || __CPROVER_is_fresh(out->embeddedsignature, out->embeddedsignaturelen))
+__CPROVER_requires(out->attestedcertificationslen == 0 || __CPROVER_is_fresh(out->attestedcertifications, out->attestedcertificationslen))
+__CPROVER_assigns(*out, in->size, tmcg_openpgp_mem_alloc, vec_u8__cell)
+__CPROVER_frees(out->embeddedsignaturelen > 0: out->embeddedsignature; out->attestedcertificationslen > 0: out->attestedcertifications)
+__CPROVER_ensures(in->size <= __CPROVER_old(in->size))
+__CPROVER_ensures(__CPROVER_return_value != 0 ==> in->size + 2 <= __CPROVER_old(in->size))
+__CPROVER_ensures(__CPROVER_return_value == 0 ==> in->size == __CPROVER_old(in->size))
+//@ loop 1
+__CPROVER_assigns(i, vec_u8__cell, __CPROVER_object_upto(out->trustregex, sizeof(out->trustregex)))
+__CPROVER_loop_invariant(i <= pkt.size)
+__CPROVER_decreases(pkt.size - i)
+//@ loop 2
+__CPROVER_assigns(i, vec_u8__cell, __CPROVER_object_upto(out->psa, sizeof(out->psa)))
+__CPROVER_loop_invariant(i <= pkt.size)
+__CPROVER_decreases(pkt.size - i)
+//@ loop 3
+__CPROVER_assigns(i, vec_u8__cell, __CPROVER_object_upto(out->revocationkey_fingerprint, sizeof(out->revocationkey_fingerprint)))
+__CPROVER_loop_invariant(i <= (pkt.size - 2))
+__CPROVER_decreases((pkt.size - 2) - i)
+//@ loop 4
+__CPROVER_assigns(i, vec_u8__cell, __CPROVER_object_upto(out->issuer, sizeof(out->issuer)))
+__CPROVER_loop_invariant(i <= 8)
+__CPROVER_decreases(8 - i)
+//@ loop 5
+__CPROVER_assigns(i, vec_u8__cell, __CPROVER_object_upto(out->notation_name, sizeof(out->notation_name)))
+__CPROVER_loop_invariant(i <= out->notation_name_length)
+__CPROVER_decreases(out->notation_name_length - i)
+//@ loop 6
+__CPROVER_assigns(i, vec_u8__cell, __CPROVER_object_upto(out->notation_value, sizeof(out->notation_value)))
+__CPROVER_loop_invariant(i <= out->notation_value_length)
+__CPROVER_decreases(out->notation_value_length - i)
+//@ loop 7
+__CPROVER_assigns(i, vec_u8__cell, __CPROVER_object_upto(out->pha, sizeof(out->pha)))
+__CPROVER_loop_invariant(i <= pkt.size)
+__CPROVER_decreases(pkt.size - i)
+//@ loop 8
+__CPROVER_assigns(i, vec_u8__cell, __CPROVER_object_upto(out->pca, sizeof(out->pca)))
+__CPROVER_loop_invariant(i <= pkt.size)
+__CPROVER_decreases(pkt.size - i)
+//@ loop 9
+__CPROVER_assigns(i, vec_u8__cell, __CPROVER_object_upto(out->keyserverpreferences, sizeof(out->keyserverpreferences)))
+__CPROVER_loop_invariant(i <= pkt.size)
+__CPROVER_decreases(pkt.size - i)
+//@ loop 10
+__CPROVER_assigns(i, vec_u8__cell, __CPROVER_object_upto(out->preferedkeyserver, sizeof(out->preferedkeyserver)))
+__CPROVER_loop_invariant(i <= pkt.size)
+__CPROVER_decreases(pkt.size - i)
+//@ loop 11
+__CPROVER_assigns(i, vec_u8__cell, __CPROVER_object_upto(out->policyuri, sizeof(out->policyuri)))
+__CPROVER_loop_invariant(i <= pkt.size)
+__CPROVER_decreases(pkt.size - i)
+//@ loop 12
+__CPROVER_assigns(i, vec_u8__cell, __CPROVER_object_upto(out->keyflags, sizeof(out->keyflags)))
+__CPROVER_loop_invariant(i <= pkt.size)
+__CPROVER_decreases(pkt.size - i)
+//@ loop 13
+__CPROVER_assigns(i, vec_u8__cell, __CPROVER_object_upto(out->signersuserid, sizeof(out->signersuserid)))
+__CPROVER_loop_invariant(i <= pkt.size)
+__CPROVER_decreases(pkt.size - i)
+//@ loop 14
+__CPROVER_assigns(i, vec_u8__cell, __CPROVER_object_upto(out->revocationreason, sizeof(out->revocationreason)))
+__CPROVER_loop_invariant(i <= (pkt.size - 1))
+__CPROVER_decreases((pkt.size - 1) - i)
+//@ loop 15
+__CPROVER_assigns(i, vec_u8__cell, __CPROVER_object_upto(out->features, sizeof(out->features)))
+__CPROVER_loop_invariant(i <= pkt.size)
+__CPROVER_decreases(pkt.size - i)
+//@ loop 16
+__CPROVER_assigns(i, vec_u8__cell, __CPROVER_object_upto(out->signaturetarget_hash, sizeof(out->signaturetarget_hash)))
+__CPROVER_loop_invariant(i <= (pkt.size - 2))
+__CPROVER_decreases((pkt.size - 2) - i)
+//@ loop 17
+__CPROVER_assigns(i, vec_u8__cell, __CPROVER_object_whole(out->embeddedsignature))
+__CPROVER_loop_invariant(i <= pkt.size)
+__CPROVER_decreases(pkt.size - i)
+//@ loop 18
+__CPROVER_assigns(i, vec_u8__cell, __CPROVER_object_upto(out->issuerfingerprint, sizeof(out->issuerfingerprint)))
+__CPROVER_loop_invariant(i <= 20)
+__CPROVER_decreases(20 - i)
+//@ loop 19
+__CPROVER_assigns(i, vec_u8__cell, __CPROVER_object_upto(out->issuerfingerprint, sizeof(out->issuerfingerprint)))
+__CPROVER_loop_invariant(i <= 32)
+__CPROVER_decreases(32 - i)
+//@ loop 20
+__CPROVER_assigns(i, vec_u8__cell, __CPROVER_object_upto(out->paa, sizeof(out->paa)))
+__CPROVER_loop_invariant(i <= pkt.size)
+__CPROVER_decreases(pkt.size - i)
+//@ loop 21
+__CPROVER_assigns(i, vec_u8__cell, __CPROVER_object_upto(out->recipientfingerprint, sizeof(out->recipientfingerprint)))
+__CPROVER_loop_invariant(i <= 20)
+__CPROVER_decreases(20 - i)
+//@ loop 22
+__CPROVER_assigns(i, vec_u8__cell, __CPROVER_object_upto(out->recipientfingerprint, sizeof(out->recipientfingerprint)))
+__CPROVER_loop_invariant(i <= 32)
+__CPROVER_decreases(32 - i)
+//@ loop 23
+__CPROVER_assigns(i, vec_u8__cell, __CPROVER_object_whole(out->attestedcertifications))
+__CPROVER_loop_invariant(i <= pkt.size)
+__CPROVER_decreases(pkt.size - i)
+//@ end
+
+//@ function PacketDecodeTag57
+//@ contract
+/* C12: a secret-key / secret-subkey packet body of any length and content (also the threshold-key formats with their
+ * vectors of MPIs and strings) is decoded or refused without any out-of-range index, iterator range or copy */
+__CPROVER_requires(TVEC_OK(pkt) && CTX_OK(out) && VV_OK(c_ik))
+__CPROVER_requires(__CPROVER_is_fresh(qual, sizeof(*qual)) && __CPROVER_is_fresh(x_rvss_qual, sizeof(*x_rvss_qual)) && __CPROVER_is_fresh(capl, sizeof(*capl)) && __CPROVER_is_fresh(v_i, sizeof(*v_i)))
+__CPROVER_assigns(*out, *qual, *x_rvss_qual, *capl, *v_i, c_ik->size, __CPROVER_object_whole(c_ik->data), T57_SCRATCH)
+__CPROVER_ensures(__CPROVER_return_value == 0 || __CPROVER_return_value == 0xFE || __CPROVER_return_value == 0xFD || __CPROVER_return_value == tag)
+//@ loop 1
+__CPROVER_assigns(i, vec_u8__cell, __CPROVER_object_upto(out->curveoid, 256))
+__CPROVER_loop_invariant(i <= out->curveoidlen)
+__CPROVER_decreases(out->curveoidlen - i)
+//@ loop 2
+__CPROVER_assigns(i, vec_u8__cell, __CPROVER_object_upto(out->curveoid, 256))
+__CPROVER_loop_invariant(i <= out->curveoidlen)
+__CPROVER_decreases(out->curveoidlen - i)
+//@ loop 3
+__CPROVER_assigns(j, mlen, mpis.size, vec_u8__cell, vec_mpi__cell)
+__CPROVER_loop_invariant(j <= qs && qual->size == qs)
+__CPROVER_decreases(qs - j)
+//@ loop 4
+__CPROVER_assigns(j, mlen, mpis.size, vec_u8__cell, vec_mpi__cell)
+__CPROVER_loop_invariant(j <= xqs && x_rvss_qual->size == xqs)
+__CPROVER_decreases(xqs - j)
+//@ loop 5
+__CPROVER_assigns(j, mlen, mpis.size, vec_u8__cell, capl->size)
+__CPROVER_loop_invariant(j <= n && capl->size == j)
+__CPROVER_decreases(n - j)
+//@ loop 6
+__CPROVER_assigns(j, mlen, mpis.size, vec_u8__cell, vec_mpi__cell, __CPROVER_object_whole(c_ik->data))
+__CPROVER_loop_invariant(j <= n && c_ik->size == n)
+__CPROVER_decreases(n - j)
+//@ loop 7
+__CPROVER_assigns(k, mlen, mpis.size, vec_u8__cell, vec_mpi__cell)
+__CPROVER_loop_invariant(k <= t + 1 && j < n && c_ik->size == n && c_ik->data[j].size == t + 1)
+__CPROVER_decreases(t + 1 - k)
+//@ loop 8
+__CPROVER_assigns(j, mlen, mpis.size, vec_u8__cell, vec_mpi__cell)
+__CPROVER_loop_invariant(j <= qs && qual->size == qs)
+__CPROVER_decreases(qs - j)
+//@ loop 9
+__CPROVER_assigns(j, mlen, mpis.size, vec_u8__cell, capl->size)
+__CPROVER_loop_invariant(j <= qs && capl->size == j)
+__CPROVER_decreases(qs - j)
+//@ loop 10
+__CPROVER_assigns(j, mlen, mpis.size, vec_u8__cell, vec_mpi__cell, __CPROVER_object_whole(c_ik->data))
+__CPROVER_loop_invariant(j <= n && c_ik->size == n)
+__CPROVER_decreases(n - j)
+//@ loop 11
+__CPROVER_assigns(k, mlen, mpis.size, vec_u8__cell, vec_mpi__cell)
+__CPROVER_loop_invariant(k <= t + 1 && j < n && c_ik->size == n && c_ik->data[j].size == t + 1)
+__CPROVER_decreases(t + 1 - k)
+//@ loop 12
+__CPROVER_assigns(j, mlen, mpis.size, vec_u8__cell, vec_mpi__cell)
+__CPROVER_loop_invariant(j <= qs && qual->size == qs)
+__CPROVER_decreases(qs - j)
+//@ loop 13
+__CPROVER_assigns(j, mlen, mpis.size, vec_u8__cell, vec_mpi__cell)
+__CPROVER_loop_invariant(j <= n && v_i->size == n)
+__CPROVER_decreases(n - j)
+//@ loop 14
+__CPROVER_assigns(j, mlen, mpis.size, vec_u8__cell, vec_mpi__cell, __CPROVER_object_whole(c_ik->data))
+__CPROVER_loop_invariant(j <= n && c_ik->size == n)
+__CPROVER_decreases(n - j)
+//@ loop 15
+__CPROVER_assigns(k, mlen, mpis.size, vec_u8__cell, vec_mpi__cell)
+__CPROVER_loop_invariant(k <= t + 1 && j < n && c_ik->size == n && c_ik->data[j].size == t + 1)
+__CPROVER_decreases(t + 1 - k)
+//@ loop 16
+__CPROVER_assigns(i, vec_u8__cell, smpis.size)
+__CPROVER_loop_invariant(i <= mpis.size && smpis.size == i)
+__CPROVER_decreases(mpis.size - i)
+//@ loop 17
+__CPROVER_assigns(i, vec_u8__cell, __CPROVER_object_upto(out->s2k_salt, 8))
+__CPROVER_loop_invariant(i <= 8)
+__CPROVER_decreases(8 - i)
+//@ loop 18
+__CPROVER_assigns(i, vec_u8__cell, __CPROVER_object_upto(out->s2k_salt, 8))
+__CPROVER_loop_invariant(i <= 8)
+__CPROVER_decreases(8 - i)
+//@ loop 19
+__CPROVER_assigns(i, vec_u8__cell, __CPROVER_object_upto(out->iv, 32))
+__CPROVER_loop_invariant(i <= ivlen && ivlen <= 32)
+__CPROVER_decreases(ivlen - i)
+//@ loop 20
+__CPROVER_assigns(i, vec_u8__cell, __CPROVER_object_whole(out->encdata))
+__CPROVER_loop_invariant(i <= out->encdatalen)
+__CPROVER_decreases(out->encdatalen - i)
+//@ end
+
